@@ -191,7 +191,7 @@ PROPS = {
         level_note="trusted: the reference analysis (half 1) - cross-checked by the independent run-time monitor (half 2); node graphs are built as parseSequence/parseDisjunction shape them (head flags, collapsing of singletons); the template's selectors are finite, so for half 1 the solver decides feasibility only; bounds below",
         runs=[dict(pkg=".", files=["root/zz_verif_ref.go", "root/zz_verif_ggcore.go", "root/zz_verif_parse.go", "root/zz_verif_grammars.go", "root/zz_verif_graph.go"], harness="^VH_C08_",
                    reach={"VH_C08_Validate": ["left-recursive", "not-left-recursive"], "VH_C08_ValidateWide": ["left-recursive", "not-left-recursive"], "VH_C08_ValidateThree": ["left-recursive", "not-left-recursive"], "VH_C08_Parse": ["accepted-by-validate", "parsed", "rejected"]})],
-        bounds=dict(quick="root production: 1-2 alternatives, <= 2 terms in the first and 1 in the second, 9 term kinds (literal, lit?, (?= lit), ~lit, @@self, @@other, (@@self)?, (?= @@self), (lit?)!); second production: 1-2 terms from {literal, lit?, @@self, @@root}: 18 000 grammars; parse half: streams <= 3 tokens, lookahead any int",
+        bounds=dict(quick="root production: 1-2 alternatives, <= 2 terms in the first and 1 in the second, 10 term kinds (literal, lit?, (?= lit), ~lit, @@self, @@other, (@@self)?, (?= @@self), (lit?)!, (@(lit?))!); second production: 1-2 terms from {literal, lit?, @@self, @@root}: 24 200 grammars; wide template: one alternative of <= 4 terms; three-production template (entry production in front of two mutually referring ones): 2 400 grammars; parse half: streams <= 3 tokens, lookahead any int",
                     thorough="15 term kinds (adds lit*, lit+, (?! lit), (@@self), ~(@@other)); streams <= 4 tokens (a second alternative of two terms was tried and dropped: the run did not finish within two hours)"),
         outside="grammars outside the template (3+ productions, unions, deeper nesting); the front end that builds the graph from tags is covered by C01/C19",
         assumptions=["monitor installed by wrapping (*strct).Parse in the executor (vWrap); natively a violation of half 2 shows as a fatal stack overflow"],
